@@ -106,18 +106,25 @@ func ruleMergeOrder(c *eng.Ctx) {
 		c.Undec(R, "core.MergeXRefTables", token.NoPos, "anchor not found")
 	} else {
 		var sets []ssa.Instruction
-		eng.Instrs(fn, false, func(in ssa.Instruction) {
-			switch x := in.(type) {
-			case ssa.CallInstruction:
-				if eng.CalleeName(x) == "core.(*XRefTable).Set" {
-					sets = append(sets, x)
-				}
-			case *ssa.MapUpdate:
-				if fr, ok := eng.LoadOfField(x.Map); ok && fr.Field == "Entries" {
-					sets = append(sets, x)
-				}
+		// the per-table overlay may have been extracted into a helper of the package
+		cluster := eng.Cluster(fn, 2)
+		for _, h := range cluster {
+			if eng.FuncName(h) == "core.(*XRefTable).Set" {
+				continue // the setter itself: its call sites are what is counted
 			}
-		})
+			eng.Instrs(h, false, func(in ssa.Instruction) {
+				switch x := in.(type) {
+				case ssa.CallInstruction:
+					if eng.CalleeName(x) == "core.(*XRefTable).Set" {
+						sets = append(sets, x)
+					}
+				case *ssa.MapUpdate:
+					if fr, ok := eng.LoadOfField(x.Map); ok && fr.Field == "Entries" {
+						sets = append(sets, x)
+					}
+				}
+			})
+		}
 		if len(sets) != 1 {
 			c.Viol(R, "core.MergeXRefTables#update", fn.Pos(), fmt.Sprintf("expected exactly one entry update in the merge loop, found %d", len(sets)))
 		} else {
@@ -133,14 +140,11 @@ func ruleMergeOrder(c *eng.Ctx) {
 			})
 			// no data-dependent guard: no dominating If whose condition reads an entry field or looks up the merged map
 			guarded := ""
-			for _, b := range fn.Blocks {
-				if len(b.Instrs) == 0 || !b.Dominates(set.Block()) || b == set.Block() {
-					continue
-				}
-				ifi, ok := b.Instrs[len(b.Instrs)-1].(*ssa.If)
-				if !ok {
-					continue
-				}
+			doms, okDom := eng.DominatingIfs(cluster, set)
+			if !okDom {
+				guarded = "the helper that performs the update is called from several places"
+			}
+			for _, ifi := range doms {
 				for v := range eng.Slice(ifi.Cond, func(*ssa.Call) bool { return true }) {
 					if fr, ok := eng.AsField(v); ok && strings.HasSuffix(fr.Struct, "core.XRefEntry") {
 						guarded = "condition at " + c.P.Pos(ifi.Pos()) + " reads XRefEntry." + fr.Field
